@@ -436,6 +436,16 @@ PROPS["C13"]["text"] += " LARGE documents (bounded, native): 1 / 126..129 / 300 
 PROPS["C14"]["text"] += " The received value of an IncorrectValueKind report includes strings that JSON text must escape (quotes, backslash, control characters, DEL, combining / zero-width / astral characters): the JSON message quotes exactly serde_json's text of the value."
 PROPS["C16"]["text"] = PROPS["C16"]["text"].replace("79 hand-written derive inputs (9 valid controls, 70 poisoned", "84 hand-written derive inputs (10 valid controls, 74 poisoned")
 
+# after the tenth batch of seeded changes (values, sizes and inner types that the small exhaustive domains did not vary)
+for _p in ("C01", "C02", "C03", "C04", "C06", "C12"):
+    _more(_p, "enum", "containers-enum", "harnesses", ["cont_option_inner_null"]) if any(u.get("group") == "containers-enum" for u in PROPS[_p]["units"]) else None
+_more("C19", "enum", "value-paths", "harnesses", ["value_step_values"])
+_more("C18", "enum", "did-you-mean", "harnesses", ["dym_generated"])
+PROPS["C06"]["text"] += " Option<T> for inner types that themselves accept null (Option<_>, (), PhantomData, Box<Option<_>>; also inside a Vec): null is None at the outermost Option (bounded, native)."
+PROPS["C19"]["text"] += " Boundary VALUES of steps (index 0 / 1 / usize::MAX / 2^60 / 4096, the empty key, equal neighbouring steps) at every position of paths of up to 4 steps (bounded, native)."
+PROPS["C18"]["text"] += " Generated long inputs (bounded, native): received words of every length 0..=40 with candidates at 0..=7 edits (substitution, deletion, insertion, adjacent transposition, and a transposed pair with an insertion between its letters -- where the restricted and the unrestricted Damerau-Levenshtein distance differ) in lists of 0..=8 candidates."
+PROPS["C14"]["text"] += " Accepted lists of 0, 1, 2, 3 and 5 alternatives: the alternatives listed after `expected one of` are read back from both messages and must be exactly the accepted list, in order."
+
 NOT_APPLICABLE = {
     "C20": "HTTP extractors are three-line async compositions of actix-web/axum extractors with deserr::deserialize; neither installed verifier can run or specify the frameworks (futures, pinning, runtime), so every obligation would be an assumed contract on actix/axum with nothing left to prove; the features are off by default and not compiled in the baseline.",
 }
